@@ -124,12 +124,18 @@ func c14Siblings(r *an.Run) {
 				var sends []an.Site
 				for _, v := range f.Graph().V {
 					ss, ok := v.Node.(*ast.SelectStmt)
-					if !ok || ss.Pos() < drain[0].Node.Pos() {
+					if !ok {
+						continue
+					}
+					// the notice of a request that was never dispatched has nothing to drain: the
+					// branch is identified by its guard (!ntfn.dispatched), not by where it stands
+					site := an.Site{Fn: f, V: v, Node: ss}
+					if ok, _ := f.Guarded(site, an.Truth(an.Field("", "dispatched", an.Any()), false, "!ntfn.dispatched")); ok {
 						continue
 					}
 					for _, c := range ss.Body.List {
 						if st, ok := c.(*ast.CommClause).Comm.(*ast.SendStmt); ok && strings.Contains(an.Text(st.Chan), ".Event.") {
-							sends = append(sends, an.Site{Fn: f, V: v, Node: ss})
+							sends = append(sends, site)
 						}
 					}
 				}
